@@ -165,7 +165,11 @@ def analyse_batch(job):
     if job.get("explosive"):
         av.limit_child(4 << 30)
     mon = av.Monitors(side_file=side).install()
-    compensated = worklist_comp.install() if job.get("compensate") else None
+    compensated = None
+    if job.get("compensate") == "worklist-order":
+        compensated = worklist_comp.install()
+    elif job.get("compensate") == "unknown-result-tag":
+        compensated = av.install_unknown_result_switch()
     entries = [p.entry for p in progs] + [x["entry"] for x in job.get("explosive", [])]
     st = lianrun.write_settings(os.path.join(sc, f"c08st_{tag}"), entry=[{"method_list": entries}])
     ws = os.path.join(sc, f"c08ws_{tag}")
@@ -177,7 +181,7 @@ def analyse_batch(job):
            "folds": len(ms["two_states"]), "stmt_state_calls": ms["stmt_state_calls"], "frames": len(ms["frames"]),
            "big": ms["big"], "wrapped": ms["wrapped"], "other_compiles": summarise_compiles(ms["compiles"]),
            "live_frames": T.live_frames, "live_overwritten": T.live_overwritten, "live_ok": T.live_crosscheck_ok,
-           "live_bad": T.live_crosscheck_bad[:3], "compensate": bool(job.get("compensate")), "switch_installed": compensated}
+           "live_bad": T.live_crosscheck_bad[:3], "compensate": job.get("compensate") or "", "switch_installed": compensated}
     fold_by_stmt = {}
     for f in ms["two_states"]:
         fold_by_stmt.setdefault(f["stmt_id"], []).append(f)
@@ -255,7 +259,7 @@ def judge_explosive(x, T, ms):
 
 def judge_program(p, text, T, ms, fold_by_stmt, job):
     out = {"uid": p.uid, "fails": [], "defs": 0, "by_value": 0, "by_unknown": 0, "const_defs": 0, "const_by_value": 0,
-           "objects_by_site": 0, "by_site_partial": 0, "kinds": {}, "dropped": None, "digest": {}, "concrete": {}, "frames": [], "work": {},
+           "objects_by_site": 0, "by_site_partial": 0, "opaque": {}, "kinds": {}, "dropped": None, "digest": {}, "concrete": {}, "frames": [], "work": {},
            "fold_checked": 0, "fold_fails": [], "sample": None}
     unit, eid, sp = unit_and_space(p.uid, p.entry, T)
     rng = random.Random(zlib.crc32(p.uid.encode()))
@@ -310,14 +314,20 @@ def judge_program(p, text, T, ms, fold_by_stmt, job):
                 out["digest"].setdefault(f"{line}:{var}", set()).update(repr(norm(a, T)) for a in avs)
             how, why = cover(val, avs, T, var) if found else (None, (value_kind(val), f"{var}: no analysed statement at line {line} defines it"))
             vk = value_kind(val)
-            if vk.endswith("-constant"):
+            if m.get("opaque"):
+                # definitions of the 'partly unknown operand' family: on some paths only the explicit unknown state can cover
+                # the value, so they are kept out of the covered-by-value share and counted on their own
+                out["opaque"][f"{construct}:{how}"] = out["opaque"].get(f"{construct}:{how}", 0) + 1
+            elif vk.endswith("-constant"):
                 out["const_defs"] += 1
             if how == "site":
                 out["by_site_partial"] += 1
                 how = "value"
             if how == "value":
                 out["by_value"] += 1
-                if vk.endswith("-constant"):
+                if m.get("opaque"):
+                    pass
+                elif vk.endswith("-constant"):
                     out["const_by_value"] += 1
                 else:
                     out["objects_by_site"] += 1
@@ -625,7 +635,10 @@ def main():
             for sig, desc, det in v["frontend"]["fails"]:
                 chk.fail(sig, desc, dict(job_case(job), detail=det))
             for uid, pr in v["programs"].items():
-                (compensated_results if v.get("compensate") else {0: results, 1: variants, 2: variants2}[v["variant"]])[uid] = pr
+                if v.get("compensate"):
+                    compensated_results[(v["compensate"], uid)] = pr
+                else:
+                    {0: results, 1: variants, 2: variants2}[v["variant"]][uid] = pr
         pending = retry
         wave += 1
         if not pending and phase == 0:
@@ -639,10 +652,12 @@ def main():
                 c = all_cases.get(uid)
                 if c is None or not pr.get("fails") or pr.get("dropped"):
                     continue
-                if not any(m.get("kind") == "loop" for m in c["meta"].values()):
+                if not any(f[0].startswith("cover:") for f in pr["fails"]):
                     continue
-                if any(f[0].startswith("cover:") for f in pr["fails"]):
-                    pending.append({"tag": f"comp_{uid}", "programs": [c], "side_dir": side_dir, "compensate": True})
+                if any(m.get("kind") == "loop" for m in c["meta"].values()):
+                    pending.append({"tag": f"compw_{uid}", "programs": [c], "side_dir": side_dir, "compensate": "worklist-order"})
+                # second switch: the unknown result of a unary / undecided binary operation tagged with the target symbol
+                pending.append({"tag": f"compu_{uid}", "programs": [c], "side_dir": side_dir, "compensate": "unknown-result-tag"})
     by_uid = {p.uid: p for p in progs}
     if rp:
         by_uid = {c["uid"]: gv.Program.from_case(c) for j in jobs for c in j["programs"]}
@@ -674,6 +689,14 @@ def main():
         chk.count("folds whose evaluated text and result were checked", pr["fold_checked"])
         const_defs += pr["const_defs"]
         const_val += pr["const_by_value"]
+        for k, n in pr.get("opaque", {}).items():
+            construct, how = k.rsplit(":", 1)
+            if construct.startswith("binary-op-with-partly-unknown-"):
+                pos = construct.split("-")[-2]
+                chk.count(f"binary operations with a partly unknown {pos} operand: definitions covered by "
+                          f"{'a folded constant' if how == 'value' else 'the explicit unknown state only' if how == 'unknown' else 'nothing'}", n)
+                if how in ("value", "unknown"):
+                    chk.nontrivial_case(f"{construct}:{how}")
         for k, n in pr["kinds"].items():
             chk.nontrivial_case(k)
             if "nested-field-read-after-late-write:" in k:
@@ -682,12 +705,25 @@ def main():
                 chk.count("value-covered definitions of the family 'helper with several exits writes a parameter object's field'", n)
         if pr["sample"]:
             chk.sample(pr["sample"])
-        comp = compensated_results.get(uid)
+        comp = compensated_results.get(("worklist-order", uid))
         still = None
         if comp is not None and not comp.get("dropped"):
             chk.count("programs re-analysed with the worklist-order compensation switched on")
             still = {(f[2].get("line"), f[2].get("var")) for f in comp["fails"]}
+        comp2 = compensated_results.get(("unknown-result-tag", uid))
+        still2 = None
+        if comp2 is not None and not comp2.get("dropped"):
+            chk.count("programs re-analysed with the unknown-result-tag compensation switched on")
+            still2 = {(f[2].get("line"), f[2].get("var")) for f in comp2["fails"]}
         for sig, desc, det in pr["fails"]:
+            if still2 is not None and sig.startswith("cover:") and (det.get("line"), det.get("var")) not in still2 \
+                    and not (still is not None and (det.get("line"), det.get("var")) not in still):
+                chk.count("failing definitions that are covered with the unknown-result-tag compensation on")
+                chk.fail("cover:unknown-result-resolved-to-operand-value",
+                         desc + f" [own signature {sig}; covered when the ANYTHING state of `y = -x` / an undecided binary "
+                                f"operation is tagged with the target symbol (proposed/C08-unknown-result-tagged-with-operand.diff)]",
+                         dict(case, detail=det))
+                continue
             if still is not None and sig.startswith("cover:") and (det.get("line"), det.get("var")) not in still:
                 chk.count("failing definitions that are covered with the worklist-order compensation on")
                 chk.fail("cover:bounded-visits-in-loops",
@@ -753,6 +789,13 @@ def main():
         # the two scripted families (measured on quick seeds 0-4: 158-183 / 185-241 value-covered definitions)
         chk.require("value-covered definitions of the family 'nested object modified in the callee after it was stored'", 80 if not thorough else 2000)
         chk.require("value-covered definitions of the family 'helper with several exits writes a parameter object's field'", 80 if not thorough else 2000)
+        # family 'binary operation with a partly unknown operand' (measured on quick seeds 0-4: second operand 225-246 definitions
+        # covered by the explicit unknown only and 215-241 by a folded constant; first operand 238-258 / 216-241)
+        for pos in ("second", "first"):
+            chk.require(f"binary operations with a partly unknown {pos} operand: definitions covered by the explicit unknown state only",
+                        100 if not thorough else 2500)
+            chk.require(f"binary operations with a partly unknown {pos} operand: definitions covered by a folded constant",
+                        100 if not thorough else 2500)
         if progs:
             chk.sample({"program": progs[0].text, "hostile_literals": progs[0].literals[:4]})
     else:
